@@ -19,8 +19,9 @@ THEOREMS = {"Proofs.Props.C18": ["MsPack.Cab.C18_open_monotone", "MsPack.Cab.C18
             "Proofs.Props.C18Stored": ["MsPack.Cab.C18_stored_params_irrelevant"],
             "Proofs.Props.C18Decoders": ["MsPack.Cab.C18_feeder_read_relaxed", "MsPack.Cab.C18_feeder_flags", "MsPack.Zip.C18_mszip_decompress_relaxed", "MsPack.Zip.C18_mszip_flags"],
             "Proofs.Props.C18Extract": ["MsPack.Cab.C18_cab_decompress_relaxed", "MsPack.Cab.C18_stored_decompress_relaxed", "MsPack.Cab.C18_cab_memberCheck_relaxed"],
-            "Proofs.Props.C18ExtractLift": ["MsPack.Cab.C18_cab_extract_relaxed", "MsPack.Cab.C18_cab_extract_relaxed_cached", "MsPack.Cab.C18_cab_session_relaxed"]}
-ASSUMPTIONS = ["theorems cover cabd_read_headers, cabd_sys_read_block and, for stored folders, extract() itself (any call sequence gives identical results under any two parameter records); the feeder (C18_feeder_read_relaxed: every read a strict feeder delivers, a feeder with SALVAGE/FIXMSZIP set delivers identically - relaxed checksum and size checks, the end-of-folder case, the LZX length hint) and the whole MSZIP decoder (C18_mszip_decompress_relaxed: an OK strict call is reproduced byte for byte with the flags set, the relation is re-established, hence along any sequence of OK calls - on an OK strict run the flags are never consulted); one decoder call inside cabd_extract for stored and MSZIP folders and the parameter checks (C18Extract: composable along skip phase, output phase and from call to call); and through cabd_extract itself (C18ExtractLift: for stored and MSZIP folders an OK strict extract() is reproduced byte for byte with SALVAGE and/or FIXMSZIP set, caches stay related; C18_cab_session_relaxed: if every call of a strict session is OK the relaxed session returns the same bytes); the LZX (walk done up to blockLoop) and Quantum decoders (which never read the flags; only their read_input meets the feeder) are validated by differential runs and the parameter-combination oracle",
+            "Proofs.Props.C18ExtractLift": ["MsPack.Cab.C18_cab_extract_relaxed", "MsPack.Cab.C18_cab_extract_relaxed_cached", "MsPack.Cab.C18_cab_session_relaxed"],
+            "Proofs.Props.C18Lzx": ["MsPack.Lzx.C18_lzx_decompress_relaxed"]}
+ASSUMPTIONS = ["theorems cover cabd_read_headers, cabd_sys_read_block and, for stored folders, extract() itself (any call sequence gives identical results under any two parameter records); the feeder (C18_feeder_read_relaxed: every read a strict feeder delivers, a feeder with SALVAGE/FIXMSZIP set delivers identically - relaxed checksum and size checks, the end-of-folder case, the LZX length hint) and the whole MSZIP decoder (C18_mszip_decompress_relaxed: an OK strict call is reproduced byte for byte with the flags set, the relation is re-established, hence along any sequence of OK calls - on an OK strict run the flags are never consulted); one decoder call inside cabd_extract for stored and MSZIP folders and the parameter checks (C18Extract: composable along skip phase, output phase and from call to call); and through cabd_extract itself (C18ExtractLift: for stored and MSZIP folders an OK strict extract() is reproduced byte for byte with SALVAGE and/or FIXMSZIP set, caches stay related; C18_cab_session_relaxed: if every call of a strict session is OK the relaxed session returns the same bytes); the LZX decoder itself is done too (C18Lzx: C18_lzx_decompress_relaxed, an OK strict call over the feeder is reproduced byte for byte with the flags set, along any sequence of OK calls) but not yet plugged into the extract plumbing; Quantum (which never read the flags; only their read_input meets the feeder) are validated by differential runs and the parameter-combination oracle",
                "model validated against the C by differential execution"]
 RULE = ("cab.params: small generated cabinets (stored/MSZIP, 1-3 blocks, 1-4 members, optional reserves) and the shipped fixtures, each run under "
         "SALVAGE x FIXMSZIP in {0,1}^2; cab.badindex: one or more file entries given a folder index >= number of folders; cab.badcksum: stored checksum of one block "
